@@ -40,6 +40,25 @@ def curve_json(rnd, U, p, dim, rational, positive=False):
             "W": fsl(rand_weights(rnd, n)) if rational else None}
 
 
+def _refined_has_zero(U, p, a, m, c):
+    """Is some control value of the quadratic Bezier (a, m, c) on [U[0], U[-1]], written over A's knots at degree max(p, 2),
+    exactly zero?  (polar form of a quadratic: F(t_1..t_d) = q2 * e2(t) / C(d,2) + q1 * e1(t) / d + q0)"""
+    lo, hi = U[0], U[-1]
+    h = hi - lo
+    # q(t) = a (1-s)^2 + 2 m s (1-s) + c s^2 with s = (t - lo) / h, as a polynomial in s
+    q0, q1, q2 = a, 2 * (m - a), a - 2 * m + c
+    d = max(p, 2)
+    inner = sorted(set(U[p + 1:len(U) - p - 1]))
+    T = [F(0)] * (d + 1) + sum(([(k - lo) / h] * (U.count(k) + d - p) for k in inner), []) + [F(1)] * (d + 1)
+    for i in range(len(T) - d - 1):
+        ts = T[i + 1:i + d + 1]
+        e1 = sum(ts)
+        e2 = sum(ts[x] * ts[y] for x in range(d) for y in range(x + 1, d))
+        if q2 * e2 / (d * (d - 1) // 2) + q1 * e1 / d + q0 == 0:
+            return True
+    return False
+
+
 def gen(tier, seed):
     rnd = random.Random(seed)
     cases = []
@@ -115,6 +134,8 @@ def gen(tier, seed):
         if not m * m < a * c:
             m = -min(a, c) / 2
         V = [U[0]] * 3 + [U[-1]] * 3
+        if _refined_has_zero(U, p, a, m, c):
+            continue          # a refined control value of the divisor would be exactly 0: known finding K3 (kept out of the stream)
         A = curve_json(rnd, U, p, rnd.choice((1, 2)), False)
         B = {"U": fsl(V), "p": 2, "scalar": True, "P": pts_json([[a], [m], [c]]), "W": None}
         if rnd.random() < 0.3:
